@@ -5,7 +5,7 @@ import ast
 from ..model import (walk, dotted, call_name, kwarg, unparse, short, UNKNOWN,
                      root_name, AnalysisError, calls_in, stores_in_target)
 from ..cfg import cfg_of
-from ..flow import Deps, guards, must_pass, loop_slice
+from ..flow import Deps, guards, must_pass, must_pass_feasible, loop_slice
 from .. import idioms as I
 from ..outcomes import check_one_outcome, Effects
 from .c01 import sched_classes, consts, grant_paths, BASE, _ancestors
@@ -118,9 +118,11 @@ def r04_1(prog, rep, rid='R04.1'):
                       '(lost), or is canceled and still kept in the pool '
                       '(started after it was reported CANCELED)')
     body3 = g.loop_body[s3[0].id]
+    pool_al = I.Aliases(prog, None, {f.name: f}, 'self._waitpool')
     ins = [n for n in g.stmt_nodes() if n.id in body3 and n.kind == 'stmt' and
            isinstance(n.ast, ast.Assign) and
-           unparse(n.ast.targets[0]).startswith('self._waitpool[')]
+           isinstance(n.ast.targets[0], ast.Subscript) and
+           pool_al.is_rooted_expr(f.name, n.ast.targets[0])]
     rep.check(bool(ins) and okp, rid, f, 'tasks of the wait list are inserted '
               'into self._waitpool after the placement loop',
               construct='waitlist->waitpool',
@@ -244,18 +246,8 @@ def r04_2(prog, rep, rid='R04.2'):
     for K in classes:
         f, g, var, starts = grant_paths(prog, rep, K, rid)
         rep.saw(f)
-        # the not-granted region: F edge of the test on the placement
-        nstarts = []
-        for n in g.nodes:
-            if n.kind == 'test' and isinstance(n.ast, ast.Name) and \
-                    n.ast.id == var:
-                for e in g.succ[n.id]:
-                    if e.label == 'F':
-                        nstarts.append(e.dst)
-        region = set()
-        for s in nstarts:
-            region |= g.reachable(s, labels={'next', 'T', 'F', 'iter', 'done'},
-                                  skip_nodes=set(starts))
+        # the not-granted region: paths on which the placement is falsy
+        region = starts.refused()
         raises = [n for n in g.stmt_nodes() if n.id in region and
                   n.kind == 'stmt' and isinstance(n.ast, ast.Raise)
                   and n.ast.exc is not None]
@@ -497,8 +489,10 @@ def r04_5(prog, rep, rid='R04.5'):
                 if isinstance(c.func, ast.Attribute) and
                 c.func.attr == 'append' and
                 isinstance(c.func.value, ast.Name) and c.func.value.id == lst]
+        pool_al = I.Aliases(prog, None, {f.name: f}, 'self._waitpool')
         dels = [n for n in walk(f.node) if isinstance(n, ast.Delete) and
-                unparse(n.targets[0]).startswith('self._waitpool[')]
+                isinstance(n.targets[0], ast.Subscript) and
+                pool_al.is_rooted_expr(f.name, n.targets[0])]
         if not apps:
             rep.bad(rid, f, h, 'the list `%s` handed on as CANCELED is never '
                     'filled: waiting tasks named in a cancel request are '
@@ -511,6 +505,33 @@ def r04_5(prog, rep, rid='R04.5'):
             pair = [d for d in dels
                     if set(guards(g, smap[id(d)].id)) == set(guards(g, an.id))
                     and smap[id(d)].loops == an.loops]
+            if len(pair) != 1 and dels:
+                # both a removal and a collection exist but under different
+                # tests (e.g. the lookup+removal sits in a helper that returns
+                # the task): decide by paths - the collection must pass a
+                # removal and a removal must reach the collection
+                dn = [smap[id(x)].id for x in dels]
+                st0 = loop_slice(g, an.loops[-1])[0] if an.loops else \
+                    g.entry.id
+                passes = must_pass_feasible(g, st0, an.id, dn)
+                fors = [h for h in an.loops if g.nodes[h].kind == 'for']
+                near = [x for x in dn if fors and x in g.loop_body[fors[0]]]
+                if not passes and not near:
+                    # no removal at all while the requested uids are walked
+                    rep.bad(rid, f, a, 'a waiting task is collected for the '
+                            'CANCELED hand-on but no removal from the wait '
+                            'pool happens in the loop over the requested uids',
+                            f.loc(a), history='cancel of a waiting task: it '
+                            'is reported CANCELED and later started')
+                    continue
+                if not passes:
+                    raise AnalysisError(
+                        'UNRECOGNISED-IDIOM %s: removal from the wait pool '
+                        'and collection for CANCELED are under different '
+                        'tests' % f.where)
+                rep.ok(rid, f, 'collecting a task for CANCELED passes its '
+                       'removal from the wait pool', f.loc(a))
+                continue
             rep.check(len(pair) == 1, rid, f, 'collecting a task for CANCELED '
                       'and deleting it from the wait pool happen together',
                       construct=a, message='a waiting task is collected for '
@@ -540,7 +561,7 @@ def r04_5(prog, rep, rid='R04.5'):
                             isinstance(key, ast.Name) and key.id in \
                             {x.id for x in walk(n.value)
                              if isinstance(x, ast.Name)} and \
-                            '_waitpool' in unparse(n.value):
+                            pool_al.is_rooted_expr(f.name, n.value):
                         look = True
                 rep.check(okk and look, rid, f, 'the task removed is the one '
                           'looked up by the requested uid', construct=dd,
@@ -586,14 +607,14 @@ def run(prog, rep, tier):
         'BaseComponent.is_canceled(task) hands the task on as CANCELED '
         'exactly when it returns True (checked by C08)',
     ]
-    r04_1(prog, rep)
-    r04_2(prog, rep)
-    r04_3(prog, rep)
-    r04_4(prog, rep)
-    r04_5(prog, rep)
+    rep.attempt(r04_1, prog, rep)
+    rep.attempt(r04_2, prog, rep)
+    rep.attempt(r04_3, prog, rep)
+    rep.attempt(r04_4, prog, rep)
+    rep.attempt(r04_5, prog, rep)
     # the counter the rule R04.2 rests on
     from .c03 import r03_3
-    r03_3(prog, rep, rid='R03.3')
+    rep.attempt(r03_3, prog, rep, rid='R03.3')
     rep.rule('R04.4', rep.rules['R04.4'], minimum=2)
 
 
